@@ -185,7 +185,34 @@ fn run_round(root: &Path, r: &mut StdRng, n_calls: usize, ver: &mut u64, n_ids: 
     let roll = r.gen_range(0..100);
     let w = writer.as_mut().unwrap();
     match roll {
-      0..=39 => {
+      // a batch that touches one id twice and is committed at once: recovering only a prefix of
+      // its log records is then distinguishable from recovering all of them
+      0..=5 => {
+        let id = pick(r, ids).to_string();
+        *ver += 1;
+        items.push(Item::Call(json!({"ev": "call", "op": "add", "id": id, "ver": *ver, "ids": []})));
+        let res = w.add_document(&doc_from_json(doc_for(&id, *ver)));
+        flush!();
+        items.push(Item::Ret(json!({"ev": "ret", "ok": res.is_ok(), "obs": idver_json(&obs(&idx))})));
+        if chance(r, 1, 2) {
+          *ver += 1;
+          items.push(Item::Call(json!({"ev": "call", "op": "add", "id": id, "ver": *ver, "ids": []})));
+          let res = w.add_document(&doc_from_json(doc_for(&id, *ver)));
+          flush!();
+          items.push(Item::Ret(json!({"ev": "ret", "ok": res.is_ok(), "obs": idver_json(&obs(&idx))})));
+        } else {
+          let dids = vec![id.clone()];
+          items.push(Item::Call(json!({"ev": "call", "op": "delete", "id": "", "ver": 0, "ids": dids})));
+          let res = w.delete_documents(&dids);
+          flush!();
+          items.push(Item::Ret(json!({"ev": "ret", "ok": res.is_ok(), "obs": idver_json(&obs(&idx))})));
+        }
+        items.push(Item::Call(json!({"ev": "call", "op": "commit", "id": "", "ver": 0, "ids": []})));
+        let res = w.commit();
+        flush!();
+        items.push(Item::Ret(json!({"ev": "ret", "ok": res.is_ok(), "obs": idver_json(&obs(&idx))})));
+      }
+      6..=39 => {
         let id = pick(r, ids).to_string();
         *ver += 1;
         items.push(Item::Call(json!({"ev": "call", "op": "add", "id": id, "ver": *ver, "ids": []})));
